@@ -392,6 +392,14 @@ pub fn fam_poison(thorough: bool) -> Vec<Program> {
 					// blocking shared acquisitions that may already be waiting when the flag changes
 					observers.push(vec![acq(0, false, Flavour::Guard, Body::TOUCH)]);
 					observers.push(vec![acq(0, false, Flavour::ScopedLent, Body::TOUCH), Step::IsPoisoned(0)]);
+					// every remaining way of asking: exclusive try, scoped tries in both modes, explicit unlock
+					observers.push(vec![acq(0, true, Flavour::Try, Body::TOUCH)]);
+					observers.push(vec![acq(0, true, Flavour::ScopedTryLent, Body::TOUCH), acq(0, false, Flavour::ScopedTryOwned, Body::TOUCH)]);
+					if thorough {
+						observers.push(vec![acq(0, false, Flavour::GuardUnlock, Body::TOUCH), acq(0, true, Flavour::GuardUnlock, Body::TOUCH)]);
+						observers.push(vec![acq(0, true, Flavour::ScopedOwned, Body::TOUCH), acq(0, false, Flavour::ScopedOwned, Body::TOUCH)]);
+						observers.push(vec![acq(1, true, Flavour::Try, Body::TOUCH), acq(1, false, Flavour::ScopedTryLent, Body::TOUCH)]);
+					}
 					for ob in observers {
 						let ob: Vec<Step> = ob
 							.into_iter()
@@ -667,6 +675,20 @@ pub fn fam_same(body: Body, thorough: bool) -> Vec<Program> {
 			}
 		}
 	}
+	// the owned unit locked directly by one thread and through a collection that refers to it by the other
+	for policy in POLICIES {
+		for k in KINDS {
+			for via_tuple in [false, true] {
+				for (w0, w1) in [(true, true), (true, false), (false, true)] {
+					if policy == Policy::WP && w0 && w1 {
+						continue;
+					}
+					let outer = if via_tuple { Spec::Native(Native::OwnedDescIn(k, 2)) } else { Spec::Native(Native::OwnedDescRef(k, 2)) };
+					out.push(Program { specs: vec![Spec::Native(Native::OwnedDescItself(2)), outer], threads: vec![vec![acq(0, w0, Flavour::Guard, body)], vec![acq(1, w1, Flavour::Guard, body)]], policy, name: "M".into(), menu: vec![] });
+				}
+			}
+		}
+	}
 	// the same, with the members inside an owned unit that a sorting / retrying collection refers to
 	for policy in POLICIES {
 		for k in KINDS {
@@ -675,6 +697,25 @@ pub fn fam_same(body: Body, thorough: bool) -> Vec<Program> {
 					continue;
 				}
 				out.push(Program { specs: vec![Spec::Native(Native::OwnedDescIn(k, 2))], threads: vec![vec![acq(0, w0, Flavour::Guard, body)], vec![acq(0, w1, Flavour::ScopedLent, body)]], policy, name: "M".into(), menu: vec![] });
+			}
+		}
+	}
+	out
+}
+
+/// Family W: collections built through the `unsafe` unchecked constructors (duplicate-free inputs listed
+/// against the address order) against checked collections over the same locks.
+pub fn fam_unchecked(body: Body) -> Vec<Program> {
+	let mut out = vec![];
+	for policy in POLICIES {
+		for k0 in KINDS {
+			for k1 in KINDS {
+				for (w0, w1) in [(true, true), (true, false)] {
+					if policy == Policy::WP && w0 && w1 {
+						continue;
+					}
+					out.push(Program { specs: vec![Spec::Native(Native::Arr3Unchecked(k0, [2, 1, 0])), Spec::Coll(k1, rs(&[0, 2]))], threads: vec![vec![acq(0, w0, Flavour::Guard, body)], vec![acq(1, w1, Flavour::ScopedLent, body)]], policy, name: "W".into(), menu: vec![] });
+				}
 			}
 		}
 	}
